@@ -3,7 +3,26 @@ with which bounds. Only bounds that ran clean on the unchanged tree are listed."
 
 W = {"workers": 14}
 
+import gen
+
 CHECKS = {
+    "C20": {
+        "level": "model_checking",
+        "level_text": "bounded symbolic model checking of garble's real command-line functions (splitFlagsFromArgs, filterForwardBuildFlags, rxGarbleFlag through the real regexp engine) against the go command's documented flag tables regenerated from `go help` on every run: every documented flag in every spelling with symbolic values and package arguments, plus fully symbolic short vectors against a reference splitter",
+        "level_note": "trusted: gosx encoder (witnesses replayed natively each run), z3 5.1, the parse of `go help build|testflag|test` into (name, boolean?, build?) tables, the 25-line reference splitter in harness/root/c20.go; bounds: values <= 1 byte (quick) / 2 bytes (thorough), <= 3 arguments fully symbolic",
+        "claim": "flag/argument split, forwarding filter and misplaced-garble-flag detection agree with the go command's documented flags",
+        "opts": dict(W),
+        "generate": [gen.go_doc_flags],
+        "runs": [
+            {"harness": "H_C20_split_each", "reach": ["split"], "bound_quick": "all documented flags x 4 spellings; value 0..1 symbolic bytes; 0..1 package args of 1 byte", "bound_thorough": "value 0..2 bytes; 0..2 package args of 1..3 bytes"},
+            {"harness": "H_C20_split_vectors", "reach": ["split"], "bound_quick": "0..2 flags from 6 class representatives x 3 spellings, 1-byte values, 0..1 package args", "bound_thorough": "0..3 flags from 10 representatives, 1..2-byte values, 0..2 package args"},
+            {"harness": "H_C20_split_symbolic", "reach": ["split"], "bound_quick": "1..2 fully symbolic arguments of 1..3 bytes (single-dash)", "bound_thorough": "1..3 arguments"},
+            {"harness": "H_C20_forward", "reach": ["forward"], "bound_quick": "1 documented flag x 3 spellings, 1-byte value", "bound_thorough": "1..2 flags, 1..2-byte values"},
+            {"harness": "H_C20_garbleflag_values", "reach": ["rx"], "bound": "10 concrete arguments that contain a garble flag name without being one"},
+            {"harness": "H_C20_garbleflag_positive", "reach": ["rx"], "bound": "5 garble flags x {-,--} x {bare, =value of 0..2 symbolic bytes}, through the real regexp engine"},
+        ],
+        "outside": ["-args", "-C ordering", "what the go command does with the arguments", "toolexecCmd's assembly of the nested go command (I/O bound)", "cmdgoQuotedSplit/Join"],
+    },
     "C16": {
         "level": "model_checking",
         "level_text": "bounded symbolic model checking of the real hashWithCustomSalt: every path of the function is executed on 32 arbitrary digest bytes and the solver shows the name invariants unsatisfiable to violate; exhaustive over the digest, sampled over name classes",
